@@ -265,6 +265,63 @@ func VerifC10CmdLists() {
 	verifReach("cmdlist.done")
 }
 
+// VerifC10KeyNotFirst: commands whose single key is not their first argument (located behind a count, a
+// sub-command or a script): the filter must judge that key - not the script text, the sub-command or the
+// count - under a prefix black list, a prefix white list and a slot white list.
+func VerifC10KeyNotFirst() {
+	type form struct {
+		cmd  string
+		args []string // "K" marks the key
+	}
+	forms := []form{
+		{"eval", []string{"return 1", "1", "K", "arg"}}, {"evalsha", []string{"abcdef", "1", "K"}},
+		{"fcall", []string{"fn", "1", "K", "arg"}}, {"lmpop", []string{"1", "K", "LEFT"}},
+		{"zmpop", []string{"1", "K", "MIN"}}, {"xgroup", []string{"CREATE", "K", "grp", "$"}},
+		{"bitop", []string{"NOT", "K", "K"}},
+		{"set", []string{"K", "v"}}, // control: key first
+	}
+	fm := forms[verifChoose("form", len(forms))]
+	bad := verifChoose("keyRejected", 2) == 1
+	kind := verifChoose("filterKind", 3)
+	f := &RedisKeyFilter{}
+	key := "ok:1"
+	switch kind {
+	case 0:
+		f.InsertPrefixKeyBlackList([]string{"bad:", "return", "abc", "fn", "CRE", "NOT", "1"})
+		if bad {
+			key = "bad:1"
+		}
+	case 1:
+		f.InsertPrefixKeyWhiteList([]string{"ok:"})
+		if bad {
+			key = "zz:1"
+		}
+	default:
+		// slot white list holding exactly the slot of "ok:1" (KeyToSlot is stubbed in this unit: C11 decides it)
+		s := redis.KeyToSlot("ok:1")
+		f.InsertSlotWhiteList([][]uint16{{uint16(s), uint16(s)}})
+		if bad {
+			key = "zz:1"
+			verifAssume(redis.KeyToSlot(key) != s)
+		}
+	}
+	args := make([][]byte, len(fm.args))
+	for i, a := range fm.args {
+		if a == "K" {
+			args[i] = []byte(key)
+		} else {
+			args[i] = []byte(a)
+		}
+	}
+	_, withheld := f.FilterCmdKey(fm.cmd, args)
+	if _, known := CommandKeyIndexes(fm.cmd, args); !known {
+		return // a command the implementation's table does not resolve is passed through (outside this obligation)
+	}
+	verifAssert(withheld == bad, "C10.key-not-first.judged-by-another-argument")
+	verifCover(bad && withheld, "keynotfirst.withheld")
+	verifReach("keynotfirst.done")
+}
+
 func verifAsciiLetters(s string) bool {
 	ok := true
 	for i := 0; i < len(s); i++ {
